@@ -134,6 +134,7 @@ class P(b1.Plugin):
                 rng.shuffle(ps)
                 f.metas = ["Debug(%s)" % ", ".join(ps)] if ps else []
         noise = [] if plain else [t for t in ("PartialEq", "Clone") if rng.random() < 0.25]
+        td.type_spelling = True
         gen.finalize_attrs(rng, td, noise)
         if plain:
             td.extra_items = ["pub mod twin { use super::super::prelude::*; #[derive(Debug)] %s }" % td.render_plain()]
